@@ -582,12 +582,13 @@ def mark_sites(ctx):
                    "marked_before_relay": bool(before), "mark_lines": [x["line"] for x in marks]}
             table.append(row)
             ctx.count(("mark-site", f["file"], f["func"], kind), nontrivial=True, kind="marksite/" + kind)
-            if kind == "wrapping" and not before:
-                where = ("MarkActive(%s) is called at line %s, i.e. not between the match and the relay" % (c["arg"], marks[0]["line"])
-                         if marks else "MarkActive(%s) is not called in that function" % c["arg"])
-                ctx.broken("mark-sites", "%s %s: the registration a wrapping transport found is relayed (Proxy, line %d) without having "
-                           "been marked used first: %s; it stays 'unused' for as long as its tunnel is open" % (
-                               f["file"], f["func"], c["line"], where), {"site": row})
+            if kind == "wrapping" and not before and marks:
+                # the call is there but in the wrong place (after the relay, deferred, in a goroutine).  A function without
+                # any MarkActive call is left to the connection lane: the call may live in a helper.
+                ctx.broken("mark-sites", "%s %s: the registration a wrapping transport found is relayed (Proxy, line %d) before it is "
+                           "marked used: MarkActive(%s) is called at line %s, i.e. not between the match and the relay; the "
+                           "registration stays 'unused' for as long as its tunnel is open" % (
+                               f["file"], f["func"], c["line"], c["arg"], marks[0]["line"]), {"site": row})
     ctx.cov["mark_sites"] = {"tunnel_sites": table, "mark_active_callers": callers}
     ctx.cov["histogram"]["wiring/markactive"] = len(callers)
     if not callers:
@@ -790,7 +791,7 @@ CONN_EXTRA = {"pkg/station/lib/zz_verif_c08_export.go": "c08/lib_export_c08.go"}
 CONN_HEADER = ("From CJ Require Import Common.Base C08.Model C08.ModelConn C08.Run C08.RunConn.\n"
                "Definition K (s : N) (t : tr) (p : N) : regkey := Build_regkey s t p.\n"
                "Definition O := Build_obs.\nDefinition CO := Build_cobs.\n")
-CONN_MARGIN = 20 * NS       # ages at a sweep stay this far from a limit: the lane runs on the real clock
+CONN_MARGIN = 45 * NS       # ages at a sweep stay this far from a limit: the lane runs on the real clock (a case may take 30 s)
 
 
 def CN(c, s, t, p):
@@ -814,9 +815,9 @@ def conn_corpus():
         # the first tunnel stays open while the registration passes the 10-minute unused lifetime; sweeps; a reconnect;
         # the tunnels close; it is removed only once it is older than 6 hours
         cs.append(conn_case([V(*k), ADV(60), CN(1, *k), ADV(600), SW, L(0), CN(2, *k), ADV(20000), SW, CL(1), SW, CL(2),
-                             ADV(900), SW, C(0), ADV(100), SW, C(0), CN(3, *k)]))
+                             ADV(880), SW, C(0), ADV(120), SW, C(0), CN(3, *k)]))
         # a short tunnel (closed long before the registration is 10 minutes old)
-        cs.append(conn_case([V(*k), CN(1, *k), CL(1), ADV(660), SW, C(0), ADV(20900), SW, C(0), ADV(100), SW, C(0)]))
+        cs.append(conn_case([V(*k), CN(1, *k), CL(1), ADV(660), SW, C(0), ADV(20880), SW, C(0), ADV(120), SW, C(0)]))
     k, k2, k6 = (1, 0, 0), (2, 0, 0), (1, 0, 1)
     # tracked but not validated: the connection is not recognised, nothing is marked
     cs.append(conn_case([T(*k), CN(1, *k), ADV(660), SW, C(0)]))
@@ -868,14 +869,14 @@ def conn_random(rng, nops):
             if live and rng.random() < 0.6:        # bring one live registration just past / just short of its limit
                 k = rng.choice(live)
                 a, u, _, _ = spec.life[k]
-                tgt = (SIX_H if u else TEN_MIN) + rng.choice([-60, -30, 30, 60, 600]) * NS
+                tgt = (SIX_H if u else TEN_MIN) + rng.choice([-90, -60, 60, 90, 600]) * NS
                 if tgt > a:
                     d = (tgt - a) // NS
             o = ADV(d)
         elif x < 0.94:
             if not conn_margin_ok(spec):
-                spec.apply(ADV(45))
-                ops.append(ADV(45))
+                spec.apply(ADV(100))
+                ops.append(ADV(100))
                 if not conn_margin_ok(spec):
                     continue
             o = SW
@@ -1015,6 +1016,10 @@ def run(ctx):
         "time is an input: the driver moves the Go runtime's fake clock (build tag faketime, runtime.faketime set through "
         "go:linkname), so ages are exact to the nanosecond, including age == limit; a subset is re-run with the real clock and "
         "shifted registrationTime (whole seconds, 0.5 s slack) and must give the same observations",
+        "connection lane: real clock with shifted registrationTime (real sockets need a running clock); ages at a sweep stay >= 45 s "
+        "from a limit, a case that takes more than 30 s of real time is re-run (3 times) or skipped and counted",
+        "MarkActive has no caller but the connection handler (hypothesis handler_only of C08_conn_never_late): the tunnel-site table "
+        "lists every caller on every run",
     ]
     ctx.cov["trusted_base"] = [
         "Coq 8.16.1 kernel (coqc; coqchk in the thorough tier); vm_compute only for evaluating the model on recorded cases",
@@ -1022,13 +1027,19 @@ def run(ctx):
         "hand-written model coq/C08/Model.v of RegisteredDecoys (track/register/markActive/getExpiredRegistrations/"
         "removeRegistration/getRegistrations/countRegistrations), tied to /repo's working tree by the correspondence run",
         "Go in-package driver harness/inpkg/c08/registry_driver_test.go, the case generator and the JSON->Gallina emitter",
+        "hand-written model coq/C08/ModelConn.v of the connection handler's effect on the registry (match => MarkActive at once, relay, "
+        "return), tied to cmd/application/conns.go by the connection lane: harness/inpkg/c08/conn_driver_test.go (real handleNewTCPConn, "
+        "TCP peers, real min/prefix client transports, loopback covert echo) with the export shim lib_export_c08.go overlaid into "
+        "pkg/station/lib; the go/ast walker harness/inpkg/c08/marksites for the tunnel-site table",
     ]
     ctx.cov["rule"] = ("a case is a history of track / track-if-new / validate (own or foreign object) / connect / advance / sweep / lookup / count operations "
                        "executed on the real RegisteredDecoys; it is counted as non-trivial if it is hash-distinct and contains at "
                        "least one sweep and one registration; exhaustive histories of length 3-4 (quick) or 3-6 (thorough) over small alphabets (one secret "
                        "with two transports, two phantoms, two secrets with a common id prefix) plus random histories of up to "
                        "200 operations over up to 8 secrets x 5 transports x 4 phantoms, with time steps aimed at the 10 min / 6 h "
-                       "limits +- 1 s")
+                       "limits +- 1 s; connection lane: handler histories (registry operations, connections through the real "
+                       "handleNewTCPConn, tunnel closes; 12 fixed + 40/400 random) with tunnels open across clock steps and sweeps, "
+                       "non-trivial if hash-distinct with at least one connection and one sweep")
     import time as _time
     t0 = [_time.time()]
     ctx.cov["phase_s"] = {}
